@@ -54,7 +54,10 @@ def _fd(draw):
                 int_point=draw(st.sampled_from([False, False, False, False, True])),
                 xi=draw(st.lists(st.integers(-3, 3), min_size=n, max_size=n)),
                 # a function that hands back its argument, or a view of it (no new array): x, x reversed, x transposed
-                view=draw(st.sampled_from([None, None, None, None, None, "self", "reversed", "transposed", "asarray"])))
+                view=draw(st.sampled_from([None, None, None, None, None, "self", "reversed", "transposed", "asarray"])),
+                # the SAME wrapper object is first asked at another point - one where the map is locally linear (far out on the
+                # decaying side of exp, the origin of the cubic), the origin, or the judged point itself
+                warm=draw(st.sampled_from([None, None, "flat", "flat", "zeros", "same"])))
 
 
 @st.composite
@@ -164,6 +167,17 @@ def _check_fd(case):
             x = np.asfortranarray(x)
         elif case.get("layout") == "T" and x.ndim >= 2:
             x = np.ascontiguousarray(x.T).T
+        if case.get("warm") and not case.get("int_point"):
+            if case["warm"] == "flat":
+                xw_ = (60.0 * np.sign(np.sum(B, axis=0) + 1e-9) if phi == "exp" else np.zeros(n)).reshape(np.shape(x))
+            elif case["warm"] == "zeros":
+                xw_ = np.zeros(np.shape(x))
+            else:
+                xw_ = np.array(x, dtype=np.float64, copy=True)
+            jw(np.asarray(xw_, dtype=np.float64))
+            warm_label = ["fd:same_wrapper_asked_elsewhere_first:" + case["warm"]]
+        else:
+            warm_label = []
         J = np.asarray(jw(x))
     except Exception as e:
         if exc_origin(e)[0] == "harness":
@@ -199,7 +213,7 @@ def _check_fd(case):
                 case["base_order"], tol, case["flat"], err, allowed, ins, outs, phi, case["x"]), sig + (":large_point" if xmax >= 1e4 else ""),
                 xmax=xmax, excess_over_magnitude_scaled_bound=err / scaled, mode="adaptive" if case.get("adaptive", True) else "fixed", **attrs))
         metrics = {"fd_err/allowed": err / allowed}
-        return viols, dict(nontrivial=bool(m != n or len(ins) > 1 or len(outs) > 1), labels=["fd:" + phi, "fd:flat" if case["flat"] else "fd:tensor", "fd:order{}".format(case["base_order"]), "fd:adaptive" if case.get("adaptive", True) else "fd:fixed_depth"] + (["fd:returns_view_of_argument:" + case["view"]] if case.get("view") and not case.get("int_point") else []), metrics=metrics)
+        return viols, dict(nontrivial=bool(m != n or len(ins) > 1 or len(outs) > 1), labels=warm_label + ["fd:" + phi, "fd:flat" if case["flat"] else "fd:tensor", "fd:order{}".format(case["base_order"]), "fd:adaptive" if case.get("adaptive", True) else "fd:fixed_depth"] + (["fd:returns_view_of_argument:" + case["view"]] if case.get("view") and not case.get("int_point") else []), metrics=metrics)
     return viols, dict(nontrivial=bool(m != n or len(ins) > 1 or len(outs) > 1), labels=["fd:" + phi])
 
 
